@@ -121,7 +121,10 @@ impl Gen {
         // generic shapes valid for every type
         match self.rng.gen_range(0..14) {
             0 => return Expr::iif(self.expr(Ty::Bool, d), self.expr(ty, d), self.expr(ty, d)),
-            1 => { let f = if self.p(0.5) { "f" } else { "g" }; return Expr::func(f, self.expr(ty, d)); }
+            // the cacheable function only sees arguments whose representation is canonical: whether two computed
+            // Decimals / Floats / containers are "the same argument" depends on the scale or zero sign the arithmetic
+            // happens to produce, which the specification deliberately leaves open (DESIGN 4.4)
+            1 => { let f = if self.p(0.5) && matches!(ty, Ty::Bool | Ty::Int | Ty::Str | Ty::DT | Ty::Dur) { "f" } else { "g" }; return Expr::func(f, self.expr(ty, d)); }
             2 => { let i = self.rng.gen_range(0..3usize); let mut items: Vec<Expr> = (0..3).map(|_| self.expr(Ty::Any, d.min(1))).collect(); items[i.min(2)] = self.expr(ty, d);
                    return Expr::index(Expr::Vec(items), Index::Vec(if self.p(0.85) { i } else { i + 3 })); }
             3 if self.profile == Profile::Paths => { let key = self.pick(&["a", "A", "ab", "k", "facts"]);
